@@ -80,7 +80,9 @@ def case_term(c):
         ss = "[" + ";".join(bl(s) for s in c.get("strs", [])) + "]"
         return "(check_string %s %s %s %s %s)" % (d, cc, m, ss, real)
     if k == "file":
-        return None     # direct oracle only
+        if not c.get("hex"):
+            return None
+        return "(check_trailer %s %s)" % (zl(c["vals"]), bl(c["hex"]))
     if k == "record":
         rj = c.get("recj")
         if not rj or c.get("oracle"):
@@ -160,6 +162,12 @@ def col_term(c):
                 else:
                     rows.append("Some (le8 %d)" % col["vals"][i])
             terms.append("check_seg %s %s [%s] %s" % (CT[col["t"]], seg_mode(real, hi - lo), ";".join(rows), bl(hx)))
+    cm = c.get("cm")
+    if cm:
+        trs = "[" + ";".join("(%d, %d)" % (a, b) for a, b in cm["trs"]) + "]"
+        cols = "[" + ";".join("(%s, (%d, (%s, [%s])))" % (bl(x["n"]), x["ty"], bl(x["pre"]), ";".join("(%d, %d)" % (o, sz) for o, sz in x["ent"]))
+                              for x in cm["cols"]) + "]"
+        terms.append("32 * check_cm (%d, (%d, (%d, (%s, %s)))) %s" % (cm["sid"], cm["off"], cm["size"], trs, cols, bl(cm["hex"])))
     return "(" + " + ".join(terms) + ")"
 
 
@@ -435,7 +443,7 @@ def evaluate(ck, cases):
         shards.append(cur)
     files = []
     for s, ids in enumerate(shards):
-        txt = ("From Coq Require Import ZArith List Bool. From OG Require Import C07.Model C07.ModelRows C07.Corr.\n"
+        txt = ("From Coq Require Import ZArith List Bool. From OG Require Import C07.Model C07.ModelRows C07.ModelFile C07.Corr.\n"
                "Import ListNotations. Open Scope Z_scope.\n"
                "Definition R : list Z := Eval vm_compute in [\n%s\n].\nPrint R.\n") % ";\n".join(terms[i] for i in ids)
         files.append(("cases%d" % s, txt))
@@ -453,7 +461,7 @@ def evaluate(ck, cases):
 
 
 def slim(c):
-    d = {k: v for k, v in c.items() if k not in ("hex", "c", "d", "dv", "segs", "recj", "rowsj")}
+    d = {k: v for k, v in c.items() if k not in ("hex", "c", "d", "dv", "segs", "recj", "rowsj", "cm")}
     if len(c.get("hex", "")) <= 400:
         d["hex"] = c.get("hex", "")
     return d
